@@ -712,13 +712,10 @@ def c08_cases(tier, seed):
     return cases
 
 
-def c07_cases(tier, seed):
-    rng = random.Random(seed * 601 + 11)
-    n = 4000 if tier == "thorough" else 260
-    pool = ["one", "two words", "é日", "a b,c", "l1\nl2\nl3", "x", "ab\ncd", "  lead", "tail\n", "\nhead", "w" * 30, "q"]
+def line_motion_cases(rng, count):
+    """Up / Down with a count inside a text of several lines: the target column on the FIRST line allows for the prompt"""
     cases = []
-    # Up / Down with a count inside a text of several lines: the target column on the FIRST line allows for the prompt
-    for _ in range(max(8, n // 20)):
+    for _ in range(count):
         lines = [rand_text(rng, 0, 7, ["a", "b", "c", "d", " ", "é"]) for _ in range(rng.randint(3, 5))]
         t = "\n".join(lines)
         k = len(t) - rng.randint(0, len(lines[-1]))
@@ -730,6 +727,15 @@ def c07_cases(tier, seed):
             keys = ["Esc", str(cnt), rng.choice(["k", "k", "-", "j"]), "i", "X", "Esc", str(rng.choice([2, 3])), rng.choice(["j", "k", "+"]), "i", "Y", "Enter"]
         cases.append(Case(keys, mode=mode, history=["h1", "h2"], initial=(t[:k], t[k:]), timeout=0 if mode == "vi" else rng.choice(["none", 0]),
                           prompt=rng.choice(["> ", "日> ", "prompt> ", ""]), cols=80))
+    return cases
+
+
+def c07_cases(tier, seed):
+    rng = random.Random(seed * 601 + 11)
+    n = 4000 if tier == "thorough" else 260
+    pool = ["one", "two words", "é日", "a b,c", "l1\nl2\nl3", "x", "ab\ncd", "  lead", "tail\n", "\nhead", "w" * 30, "q"]
+    cases = []
+    cases += line_motion_cases(rng, max(8, n // 20))
     for _ in range(n):
         mode = rng.choice(["emacs", "emacs", "vi"])
         hist = [rng.choice(pool) for _ in range(rng.choice([0, 1, 2, 3, 5]))]
